@@ -53,3 +53,75 @@ def curated():
 def with_defaults(shape, only_sym=None):
     """Restrict the symbolic optional parameters: by default keep every parameter symbolic."""
     return shape
+
+
+def dead_shapes():
+    c = {}
+    c["deadsrc-conv-pload"] = S(N("S", "Source", pol="nonneg"), N("C", "Converter", "S"), N("L", "PLoad", "C"))
+    c["deadsrc-depth3"] = S(N("S", "Source", pol="nonneg"), N("W", "PSwitch", "S"), N("G", "LinReg", "W"), N("L", "RLoad", "G"),
+                            N("L2", "ILoad", "W"))
+    c["deadsrc-rloss-rect"] = S(N("S", "Source", pol="nonneg"), N("R", "RLoss", "S"), N("D", "RectM", "R"), N("L", "ILoad", "D"))
+    c["deadsrc-vloss-rectd"] = S(N("S", "Source", pol="nonneg"), N("V", "VLoss", "S"), N("D", "RectD", "V"), N("L", "PLoad", "D"))
+    c["two-src-one-dead"] = S(N("S1", "Source", pol="nonneg"), N("C", "Converter", "S1"), N("L1", "PLoad", "C"),
+                              N("S2", "Source"), N("L2", "ILoad", "S2"))
+    c["mux-dead-inputs"] = S(N("S1", "Source", pol="nonneg"), N("S2", "Source", pol="nonneg"),
+                             N("M", "PMux", ["S1", "S2"], rs_list=True), N("C", "Converter", "M"), N("L", "PLoad", "C"))
+    c["negdead-src"] = S(N("S", "Source", pol="any", only=()), N("G", "LinReg", "S", pol="nonzero"), N("L", "RLoad", "G"))
+    return c
+
+
+def phase_shapes():
+    """(shape, [phases to solve]) -- list-configured elements inactive in some phase; loads with tables."""
+    c = {}
+    ph = ["a", "b"]
+    c["conv-inactive"] = S(N("S", "Source"), N("C", "Converter", "S", phases=["a"]), N("L1", "PLoad", "C"), N("L2", "ILoad", "S"), phases=ph)
+    c["src-inactive"] = S(N("S", "Source", phases=["b"]), N("W", "PSwitch", "S"), N("L", "RLoad", "W"), phases=ph)
+    c["switch-inactive-deep"] = S(N("S", "Source"), N("W", "PSwitch", "S", phases=["b"]), N("C", "Converter", "W"),
+                                  N("G", "LinReg", "C"), N("L", "ILoad", "G"), phases=ph)
+    c["linreg-inactive"] = S(N("S", "Source"), N("G", "LinReg", "S", phases=["a"]), N("R", "RLoss", "G"), N("L", "PLoad", "R"), phases=ph)
+    c["mux-inactive"] = S(N("S1", "Source"), N("S2", "Source"), N("M", "PMux", ["S1", "S2"], rs_list=True, phases=["a"]),
+                          N("L", "PLoad", "M"), phases=ph)
+    c["mux-input-inactive"] = S(N("S", "Source"), N("W1", "PSwitch", "S", phases=["a"]), N("W2", "PSwitch", "S"),
+                                N("M", "PMux", ["W1", "W2"], rs_list=True), N("L", "ILoad", "M"), phases=ph)
+    c["mux-src-inactive"] = S(N("S1", "Source", phases=["a"]), N("S2", "Source"), N("M", "PMux", ["S1", "S2"]),
+                              N("L", "RLoad", "M"), phases=ph)
+    c["loads-phased"] = S(N("S", "Source"), N("C", "Converter", "S"), N("L1", "PLoad", "C", phases=["a"]),
+                          N("L2", "ILoad", "C", phases=["a", "b"]), N("L3", "RLoad", "C", phases=["b"]), phases=ph)
+    return c
+
+
+def mux_shapes():
+    c = {}
+    cur = curated()
+    for k in ("mux2", "mux3-conv", "mux-same-source"):
+        c[k] = cur[k]
+    c["mux1"] = S(N("S", "Source", pol="nonneg"), N("M", "PMux", ["S"]), N("L", "PLoad", "M"))
+    c["mux2-scalar-rs"] = S(N("S1", "Source", pol="nonneg"), N("S2", "Source"), N("M", "PMux", ["S1", "S2"]), N("L", "ILoad", "M"))
+    c["mux4"] = S(N("S1", "Source", pol="nonneg", only=()), N("S2", "Source", pol="nonneg", only=()), N("S3", "Source", pol="nonneg", only=()),
+                  N("S4", "Source"), N("M", "PMux", ["S1", "S2", "S3", "S4"], rs_list=True, only=("rs",)), N("L", "RLoad", "M"))
+    c["mux-below-regs"] = S(N("S1", "Source", pol="nonneg"), N("C", "Converter", "S1"), N("S2", "Source"), N("W", "PSwitch", "S2"),
+                            N("M", "PMux", ["C", "W"], rs_list=True), N("L", "PLoad", "M"), N("L0", "ILoad", "C"))
+    c["mux-shared-src-load"] = S(N("S1", "Source", pol="nonneg"), N("S2", "Source"), N("L1", "ILoad", "S1"),
+                                 N("M", "PMux", ["S1", "S2"], rs_list=True), N("G", "LinReg", "M"), N("L", "RLoad", "G"))
+    return c
+
+
+def multi_source_shapes():
+    c = {}
+    cur = curated()
+    c["two-sources"] = cur["two-sources"]
+    c["three-sources"] = S(N("S1", "Source"), N("L1", "PLoad", "S1"), N("S2", "Source"), N("R", "RLoss", "S2"), N("L2", "ILoad", "R"),
+                           N("S3", "Source", pol="nonneg"), N("L3", "RLoad", "S3"))
+    # the same structures inserted in other orders (rows are emitted in rustworkx's topological order)
+    c["two-sources-interleaved"] = S(N("S1", "Source"), N("S2", "Source"), N("G", "LinReg", "S2"), N("C", "Converter", "S1"),
+                                     N("L2", "ILoad", "G"), N("L1", "PLoad", "C"))
+    c["two-sources-reversed"] = S(N("S2", "Source"), N("S1", "Source"), N("C", "Converter", "S1"), N("G", "LinReg", "S2"),
+                                  N("L1", "PLoad", "C"), N("L2", "ILoad", "G"))
+    c["three-sources-interleaved"] = S(N("S1", "Source"), N("S2", "Source"), N("S3", "Source", pol="nonneg"), N("L3", "RLoad", "S3"),
+                                       N("R", "RLoss", "S2"), N("L1", "PLoad", "S1"), N("L2", "ILoad", "R"))
+    c["fan-two-sources"] = S(N("S1", "Source"), N("S2", "Source"), N("A1", "PSwitch", "S1"), N("A2", "PSwitch", "S2"),
+                             N("L1", "PLoad", "A1"), N("L2", "PLoad", "A2"), N("L3", "ILoad", "S1"), N("L4", "ILoad", "S2"))
+    for k, v in mux_shapes().items():
+        if k in ("mux2", "mux-below-regs", "mux-shared-src-load"):
+            c[k] = v
+    return c
